@@ -96,6 +96,8 @@ type Contract struct {
 	Loops    map[int]*Annot
 	Options  map[string]string
 	Pure     bool // "pure": no modifies at all
+	EntryLemmas []LemmaCall
+	GhostFinal  []GhostStmt
 }
 
 var reEns = regexp.MustCompile(`^ensures(?:\[([^\]]+)\])?\s+(.*)$`)
@@ -318,6 +320,18 @@ func ParseContracts(file string) ([]*Contract, error) {
 				return nil, fail(err)
 			}
 			cur.Ghosts = append(cur.Ghosts, g)
+		case "lemma":
+			l, err := parseLemma(rest)
+			if err != nil {
+				return nil, fail(err)
+			}
+			cur.EntryLemmas = append(cur.EntryLemmas, l)
+		case "ghost-final":
+			g, err := parseGhost(rest)
+			if err != nil {
+				return nil, fail(err)
+			}
+			cur.GhostFinal = append(cur.GhostFinal, g)
 		case "cut":
 			m := reCut.FindStringSubmatch(rest)
 			if m == nil {
